@@ -1,0 +1,57 @@
+//! Coverage counters for the model-based verification in `/verif`.
+//!
+//! Compiled only with `--cfg recmo_uint_verif`; never part of a normal build.
+//! Each counter is named after the branch it sits on; the verification
+//! executor snapshots them around every call to report which rare paths a
+//! run reached.
+#![allow(missing_docs)]
+
+use core::sync::atomic::{AtomicU64, Ordering};
+
+macro_rules! counters {
+    ($($id:ident),* $(,)?) => {
+        #[allow(non_camel_case_types)]
+        #[derive(Clone, Copy, Debug, PartialEq, Eq)]
+        #[repr(usize)]
+        pub enum Hook { $($id),* }
+
+        pub const NAMES: &[&str] = &[$(stringify!($id)),*];
+    };
+}
+
+counters! {
+    div_dispatch_1x1, div_dispatch_nx1, div_dispatch_nx2, div_dispatch_nxm, div_numerator_shorter, div_numerator_zero,
+    knuth_norm_forced_digit, knuth_norm_add_back, knuth_forced_digit, knuth_add_back, knuth_q_zero, knuth_shift_zero,
+    knuth_shift_nonzero, knuth_q_high,
+    div_2x1_decrement, div_2x1_increment, div_3x2_decrement, div_3x2_increment,
+    reciprocal_2_adjust_1, reciprocal_2_adjust_2, reciprocal_2_adjust_3, reciprocal_2_adjust_4,
+    addmul_truncated_row, addmul_result_exhausted, addmul_empty_operand,
+    redc_carry_kept, redc_carry_set, redc_sub_by_carry, redc_sub_by_no_borrow, redc_no_sub,
+    redc_square_wide, redc_square_carry_outer_1, redc_square_carry_outer_2,
+    lehmer_prefix_small_a1, lehmer_prefix_a2_small_odd, lehmer_prefix_a2_small_identity,
+    lehmer_even_i2, lehmer_even_i1, lehmer_even_i0, lehmer_odd_i2, lehmer_odd_i1, lehmer_odd_i0,
+    lehmer_from_u64, lehmer_from_u128, lehmer_from_shifted,
+    gcd_euclid_step, gcd_matrix_step, gcd_ext_euclid_step, gcd_ext_matrix_step, inv_mod_euclid_step, inv_mod_matrix_step,
+    shl_whole_limbs_out, shr_whole_limbs_out,
+    from_base_le_power_overflow, log_decrement, log_increment, root_iteration, root_capped_step,
+}
+
+static COUNTERS: [AtomicU64; NAMES.len()] = {
+    #[allow(clippy::declare_interior_mutable_const)]
+    const Z: AtomicU64 = AtomicU64::new(0);
+    [Z; NAMES.len()]
+};
+
+#[inline(always)]
+pub fn hit(h: Hook) {
+    COUNTERS[h as usize].fetch_add(1, Ordering::Relaxed);
+}
+
+#[must_use]
+pub fn snapshot() -> [u64; NAMES.len()] {
+    let mut out = [0; NAMES.len()];
+    for (o, c) in out.iter_mut().zip(COUNTERS.iter()) {
+        *o = c.load(Ordering::Relaxed);
+    }
+    out
+}
